@@ -164,7 +164,13 @@ func (w *worldA) queryMembership(s Step) {
 	}
 	hyper := w.authenticHyper(cv)
 	if hyper == nil {
-		r.Bug("no authentic hyper digest for version %d", cv)
+		// only possible in a run with repeated events (no reference sparse tree)
+		// when the only apply that computed this state crashed before answering
+		if !w.e.rlog.Repeated() {
+			r.Bug("no authentic hyper digest for version %d", cv)
+		}
+		r.Count("probe.no_authentic_hyper_for_repeated_run")
+		return
 	}
 	rng := r.StepRng("qmem")
 	budget := s.K
